@@ -148,7 +148,9 @@ int main(int argc, char** argv) {
           ev_begin("round"); ev_str("via", "print"); ev_str("sink", isfile ? "F" : "S"); ev_str("kind", kind == 'I' ? "I" : "F");
           char* txt = outb + (posw[i] < (int)on ? posw[i] : (int)on);
           if (kind == 'I') { raw_int("v", c_int(vs[i])); raw_int("back", c_int(back)); raw_int("denoted", strcmp(hc_w[3], "$") && strchr(hc_w[3], 'u') ? (int64_t)strtoull(txt, NULL, 10) : strtoll(txt, NULL, 10)); }
-          else { raw_flt("v", c_float(vs[i])); raw_flt("back", c_float(back)); raw_flt("denoted", strtod(txt, NULL)); }
+          else { raw_flt("v", c_float(vs[i])); raw_flt("back", c_float(back));
+                 /* without an l the conversion reads a C float: the value the text denotes in single precision */
+                 raw_flt("denoted", (strcmp(hc_w[3], "$") && !strchr(hc_w[3], 'l')) ? (double)strtof(txt, NULL) : strtod(txt, NULL)); }
           ev_int("wrote", posw[i + 1] - posw[i]); ev_int("consumed", p - pos);
           bytes_key("text", txt, (size_t)(posw[i + 1] - posw[i] > 0 && posw[i + 1] <= (int)on ? posw[i + 1] - posw[i] : 0));
           ev_str("exc", exc[0] ? exc : e2); ev_str("msg", exc[0] ? m1 : hc_msg); ev_int("line", cur_line); ev_end();
